@@ -118,6 +118,13 @@ class TinyExec:
                         so.d[self.ev(t.slice, env, so)] = v
                     elif isinstance(t, ast.Subscript) and isinstance(t.value, ast.Name) and isinstance(env.get(t.value.id), (dict, list)):
                         env[t.value.id][self.ev(t.slice, env, so)] = v
+                    elif isinstance(t, ast.Subscript) and type(self._try(t.value, env, so)).__module__ == "numpy":
+                        base_ = self._try(t.value, env, so)
+                        if isinstance(t.slice, ast.Slice):
+                            lo, hi, stp = [self.ev(x, env, so) if x is not None else None for x in (t.slice.lower, t.slice.upper, t.slice.step)]
+                            base_[lo:hi:stp] = v
+                        else:
+                            base_[self.ev(t.slice, env, so)] = v
                     elif isinstance(t, ast.Subscript) and isinstance(self._try(t.value, env, so), (dict, list)) and not isinstance(t.slice, ast.Slice):
                         self._try(t.value, env, so)[self.ev(t.slice, env, so)] = v
                     elif isinstance(t, ast.Attribute) and isinstance(self._try(t.value, env, so), Fake):
